@@ -45,7 +45,7 @@ def _grids(h, w, tier, seed, k):
 def jobs(tier, seed):
     out = []
     n4 = 20 if tier == 'quick' else 64
-    for op in ('slope', 'aspect', 'curvature', 'hillshade', 'mean1', 'mean2'):
+    for op in ('slope', 'aspect', 'curvature', 'hillshade', 'hillshade-angles', 'mean1', 'mean2'):
         for (cy, cx) in _grids(4, 4, tier, seed + len(op), n4 if op in ('slope', 'mean1') else n4 // 2):
             out.append({'name': '%s-4x4-%s-%s' % (op, 'x'.join(map(str, cy)), 'x'.join(map(str, cx))), 'op': op, 'shape': [4, 4], 'chunks': [list(cy), list(cx)]})
     # integer rasters: the NaN halo / NaN border must not be cast to the integer dtype before the kernel sees it
@@ -53,6 +53,10 @@ def jobs(tier, seed):
         for dt in (('int32', 'uint8') if tier == 'quick' else ('int32', 'uint8', 'int64', 'float32')):
             for (cy, cx) in _grids(3, 4, tier, seed + 11, 3 if tier == 'quick' else 8):
                 out.append({'name': '%s-3x4-%s-%s-%s' % (op, dt, 'x'.join(map(str, cy)), 'x'.join(map(str, cx))), 'op': op, 'shape': [3, 4], 'chunks': [list(cy), list(cx)], 'dtype': dt})
+    # focal mean with an explicit excludes list that does not contain NaN (the NaN halo then takes part in the window like on the raster edge)
+    for op in ('mean1e', 'mean2e'):
+        for (cy, cx) in _grids(3, 4, tier, seed + 17, 4 if tier == 'quick' else 16):
+            out.append({'name': '%s-3x4-%s-%s' % (op, 'x'.join(map(str, cy)), 'x'.join(map(str, cx))), 'op': op, 'shape': [3, 4], 'chunks': [list(cy), list(cx)]})
     for kn, ks in KERNELS.items():
         shp = [4, 4] if tier == 'quick' or kn not in ('3x5', '5x3') else ([4, 5] if kn == '3x5' else [5, 4])
         for op in ('apply', 'convolution', 'focal_stats'):
@@ -106,7 +110,14 @@ def body(ctx, job):
                       info=lambda m, c=c: {'op': op, 'cell': list(c), 'chunks': chunks, 'dask': ctx.ev(m, b[c]), 'numpy': ctx.ev(m, a[c])})
 
     dt = job.get('dtype', 'float64')
-    if op in ('slope', 'aspect', 'curvature', 'hillshade'):
+    if op == 'hillshade-angles':
+        # non-default, symbolic illumination: both backends must receive both parameters
+        d = ctx.array('d', (h, w), dt, nan=True)
+        a_np, a_da = pair(d)
+        az = ctx.real('azimuth', lo=0, hi=360)
+        alt = ctx.real('angle_altitude', lo=0, hi=90)
+        compare(ctx.call('hillshade:hillshade', a_np, az, alt), ctx.call('hillshade:hillshade', a_da, az, alt), 'hillshade')
+    elif op in ('slope', 'aspect', 'curvature', 'hillshade'):
         d = ctx.array('d', (h, w), dt, nan=True)
         a_np, a_da = pair(d)
         compare(ctx.call('%s:%s' % (op, op), a_np), ctx.call('%s:%s' % (op, op), a_da), op)
@@ -115,6 +126,15 @@ def body(ctx, job):
         a_np, a_da = pair(d)
         p = int(op[-1])
         compare(ctx.call('focal:mean', a_np, p), ctx.call('focal:mean', a_da, p), op, exact=False)
+    elif op in ('mean1e', 'mean2e'):
+        # excludes=[0]: a fixed raster with some zero cells and two symbolic cells (every comparison with the excluded value forks, so the
+        # all-symbolic version is out of reach for two passes)
+        d = symnp.asarray([[float((y * 5 + x * 3) % 4) for x in range(w)] for y in range(h)], 'float64').copy()
+        for k_, (y, x) in enumerate(((0, 1), (h - 1, w - 2))):
+            d[y, x] = ctx.real('d%d' % k_)
+        a_np, a_da = pair(d)
+        p = int(op[4])
+        compare(ctx.call('focal:mean', a_np, p, [0.0]), ctx.call('focal:mean', a_da, p, [0.0]), op, exact=False)
     elif op in ('apply', 'focal_stats', 'convolution', 'hotspots'):
         kr, kc = KERNELS[job['kernel']]
         if op == 'hotspots':
